@@ -1161,6 +1161,7 @@ def oracle_c18(world, result):
             V.append({"clause": "c18.loss_nan", "detail": f"validation loss is NaN at finite parameters (fault row in batch: {le[i]['has_fault_row']})"})
             break
     P["poison_checks"] = n_poison_checked
+    P["named_sweep_runs"] = int(world.get("sweep") is not None)
     P["enumerated_block_runs"] = int(world.get("enumerated") is not None)
     P["sig_fault_hit"] = int(P.get("finite_loss_with_fault_row", 0) > 0)
     # end-to-end: if no batch loss was ever non-finite, nothing may be non-finite at the end
